@@ -323,8 +323,38 @@ func verif_HTTPGroupController_UnRegister(ctl *HTTPGroupController, proxyName, g
 //verif:contract (*~/server/group.HTTPGroup).chooseEndpoint
 //verif:props C13 C16
 func verif_HTTPGroup_chooseEndpoint(g *HTTPGroup) {
+	i0 := g.index
 	name, err := g.chooseEndpoint()
 	verif.Ensures((err == nil) == (name != ""), "endpoint_or_error")
+	// C13 "fans out over the live members": every choice moves the rotation on
+	verif.Ensures(g.index == i0+1, "rotation_advances_with_every_choice")
+}
+
+// A member's connection function is unknown code (the proxy's GetRealConn).
+//
+//verif:dyncall (*~/server/group.HTTPGroup).createConnByEndpoint 1
+func verifSpec_memberCreateConn(remoteAddr string) (net.Conn, error) {
+	return verif.Any[net.Conn](), verif.Any[error]()
+}
+
+// createConnByEndpoint: the endpoint chosen a moment ago may have left the
+// group since (C13 "live members only"; C16: the dial goroutine of
+// http.Transport has no recover): only a function that is registered under
+// that name is called; for a name that is no (longer a) member the caller gets
+// an error and nothing is called.
+//
+//verif:contract (*~/server/group.HTTPGroup).createConnByEndpoint
+//verif:props C13 C16
+//verif:kinds post,lock
+func verif_HTTPGroup_createConnByEndpoint(g *HTTPGroup, endpoint, remoteAddr string) {
+	f := g.createFuncs[endpoint]
+	verif.ResetEvents()
+	c, err := g.createConnByEndpoint(endpoint, remoteAddr)
+	if f == nil {
+		verif.Ensures(c == nil && err != nil && !verif.Called("dyncall:"), "departed_member_is_an_error_and_nothing_is_called")
+	} else {
+		verif.Ensures(verif.CalledWith("dyncall:", 0, remoteAddr), "member_function_gets_the_users_address")
+	}
 }
 
 // ---------------------------------------------------------------- C13: tcpmux groups
